@@ -173,6 +173,17 @@ def run(ctx):
     sc = list(SCALARS)
     for s in ('"abc"', '12.5kg', '@a "b"', '[1,2]', '2020-06-01T12:00:00Z UTC', 'C(1,2)'):
         sc.extend(rng.sample(mutations(rng, s, 400), 60 if not thorough else 300))
+    # nested grids written as scalars (alone, in a list, in a dict, in another nested grid), with whole TOKENS inserted at every
+    # position: repeated / ill-typed reserved tags, stray separators and brackets
+    tokens = [' ver', ' ver:M', ' ver:3', ' ver:"x"', ' ver:"2.0"', ' ver:[1]', ' ver:T', ' a', ' a:', ',', ',,', '>>', '<<', ' id', '\n', ' N', 'ver:"3.0"\n']
+    nested = ['<<ver:"3.0"\na\n1\n>>', '[<<ver:"3.0" m:1\na,b\n1,2\n>>]', '{g:<<ver:"3.0"\na\n"x"\n>>}', '<<ver:"3.0"\na\n<<ver:"3.0"\nb\n1\n>>\n>>', '<<ver:"2.0"\na\n1\n>>']
+    tk = []
+    for s0 in nested:
+        for pos in range(len(s0) + 1):
+            for t in tokens:
+                tk.append(s0[:pos] + t + s0[pos:])
+    sc.extend(nested)
+    sc.extend(tk if thorough else rng.sample(tk, 700) + [s0[:s0.index('"3.0"') + 5] + t + s0[s0.index('"3.0"') + 5:] for s0 in nested if '"3.0"' in s0 for t in tokens])
     for ver, ver3 in (('3.0', True), ('2.0', False)):
         res = zincsim.impl_scalar_many(sc, ver=ver)
         mod = zincsim.model_zscalar(ctx, sc, ver3=ver3)
